@@ -57,6 +57,8 @@ def snapshot(p):
     out['d'] = q(p.d)
     out['iscontinuous'] = q(p.iscontinuous)
     out['t2T(0,.5)'] = q(lambda: p.t2T(0, 0.5))
+    for i in range(1, min(len(p), 5)):
+        out['t2T(%d,.25)' % i] = q(lambda: p.t2T(i, 0.25))
     return out
 
 
@@ -91,7 +93,7 @@ def compare_fresh(ck, p, hist_prefix, mode, cubic, extra_key=''):
         last = hist_prefix[-1]['op']
         setter = any(h['op'] in ('SetStart', 'SetEnd') for h in hist_prefix)
         if setter and set(bad) <= {'length', 'length(.25,.75)', 'point(0.25)', 'point(0.5)', 'point(0.75)', 'T2t(0.25)', 'T2t(0.5)',
-                                   'T2t(0.75)', 'point(0.3333333333333333)', 'T2t(0.3333333333333333)', 't2T(0,.5)'}:
+                                   'T2t(0.75)', 'point(0.3333333333333333)', 'T2t(0.3333333333333333)', 't2T(0,.5)', 't2T(1,.25)', 't2T(2,.25)', 't2T(3,.25)', 't2T(4,.25)'}:
             key = 'Path.start-end-setters/stale-length-cache'
         else:
             key = 'Path/%s/differs-from-fresh:%s' % (last, ','.join(sorted(bad)[:3]))
